@@ -3,6 +3,7 @@ pub mod drive;
 pub mod e1;
 pub mod e2;
 pub mod ev;
+pub mod fuzzrun;
 pub mod gen;
 pub mod prog;
 pub mod props;
